@@ -286,12 +286,13 @@ MInit(ts) == [opds |-> <<>>, ops |-> <<>>, rest |-> ts]
 MDone(m) == m.rest = <<>> /\ m.ops = <<>>
 
 MustReduce(m) ==
-  /\ m.ops # <<>>
-  /\ \/ m.rest = <<>>
-     \/ /\ Head(m.rest).t \in {"bin", "post"}
-        /\ LET lt == Lvl(Last(m.ops))
-               ln == Lvl(Head(m.rest))
-           IN lt < ln \/ (lt = ln /\ Assoc(lt) = "left")
+  IF m.ops = <<>> THEN FALSE
+  ELSE IF m.rest = <<>> THEN TRUE
+  ELSE IF Head(m.rest).t \in {"bin", "post"}
+       THEN LET lt == Lvl(Last(m.ops))
+                ln == Lvl(Head(m.rest))
+            IN lt < ln \/ (lt = ln /\ Assoc(lt) = "left")
+       ELSE FALSE
 
 MReduce(m) ==
   LET op == Last(m.ops)
@@ -413,9 +414,12 @@ Chk(n) == IF n > Bound \/ n < -Bound THEN Unm ELSE VI(n)
 Abs(n) == IF n < 0 THEN -n ELSE n
 TruncDiv(a, b) == LET q == Abs(a) \div Abs(b) IN IF (a < 0) # (b < 0) THEN -q ELSE q
 
+\* products are formed only when they stay inside the bound (TLC's integers are 32 bit)
+SafeMul(a, b) == IF a = 0 \/ b = 0 THEN VI(0)
+                 ELSE IF Abs(a) > Bound \div Abs(b) THEN Unm ELSE VI(a * b)
 RECURSIVE PowR(_, _, _)
-PowR(b, e, acc) == IF e = 0 THEN Chk(acc)
-                   ELSE IF Abs(acc) > Bound THEN Unm ELSE PowR(b, e - 1, acc * b)
+PowR(b, e, acc) == IF e = 0 THEN VI(acc)
+                   ELSE LET x == SafeMul(acc, b) IN IF x = Unm THEN Unm ELSE PowR(b, e - 1, x.v)
 RECURSIVE Pow2(_)
 Pow2(e) == IF e = 0 THEN 1 ELSE 2 * Pow2(e - 1)
 
@@ -432,11 +436,11 @@ BitOp(f, a, b) ==   \* a, b >= 0; f in {"&", "|", "^"}
 IntOp(op, a, b) ==
   CASE op = "+" -> Chk(a + b)
     [] op = "-" -> Chk(a - b)
-    [] op = "*" -> Chk(a * b)
+    [] op = "*" -> SafeMul(a, b)
     [] op = "/" -> IF b = 0 THEN Unm ELSE VI(TruncDiv(a, b))
     [] op = "%" -> IF b = 0 THEN Unm ELSE VI(a - b * TruncDiv(a, b))
     [] op = "**" -> IF b < 0 \/ b > 40 THEN Unm ELSE PowR(a, b, 1)
-    [] op = "<<" -> IF b < 0 \/ b > 20 THEN Unm ELSE Chk(a * Pow2(b))
+    [] op = "<<" -> IF b < 0 \/ b > 20 THEN Unm ELSE SafeMul(a, Pow2(b))
     [] op = ">>" -> IF b < 0 \/ b > 20 THEN Unm ELSE VI(a \div Pow2(b))   \* floor = arithmetic shift
     [] op \in {"&", "|", "^"} -> IF a < 0 \/ b < 0 THEN Unm ELSE VI(BitOp(op, a, b))
     [] op = "<" -> VB(a < b)
@@ -456,18 +460,15 @@ Call1(n, x) == CASE n = "inc" -> Chk(x + 1)
                  [] n = "dbl" -> Chk(2 * x)
                  [] n = "odd" -> IF x < 0 THEN Unm ELSE VB(x % 2 = 1)
 
-RECURSIVE MapVals(_, _)
-MapVals(n, es) ==   \* Unm if any application is
-  IF es = <<>> THEN <<>>
-  ELSE LET h == Call1(n, Head(es).v)
-           t == MapVals(n, Tail(es))
-       IN IF IsBad(h) \/ t = Unm THEN Unm ELSE <<h>> \o t
+\* element-wise application; MapOk says that no application leaves the model
+MapOk(n, es) == \A j \in 1..Len(es) : ~IsBad(Call1(n, es[j].v))
+MapVals(n, es) == [j \in 1..Len(es) |-> Call1(n, es[j].v)]
 
 RECURSIVE SumInts(_)
 SumInts(es) == IF es = <<>> THEN 0 ELSE Head(es).v + SumInts(Tail(es))
-RECURSIVE ProdInts(_)
-ProdInts(es) == IF es = <<>> THEN 1
-                ELSE LET r == ProdInts(Tail(es)) IN IF Abs(r) > Bound THEN r ELSE Head(es).v * r
+RECURSIVE ProdInts(_)   \* VI(product) or Unm
+ProdInts(es) == IF es = <<>> THEN VI(1)
+                ELSE LET r == ProdInts(Tail(es)) IN IF r = Unm THEN Unm ELSE SafeMul(Head(es).v, r.v)
 RECURSIVE FoldBits(_, _, _)
 FoldBits(f, acc, es) == IF es = <<>> THEN acc ELSE FoldBits(f, BitOp(f, acc, Head(es).v), Tail(es))
 
@@ -488,12 +489,11 @@ ApBin(op, x, y, env) ==
          ELSE Unm
     [] op = "@" ->
          IF x.k = "iter" /\ y.k = "fn" /\ FnArity(y.n) = 1 /\ x.ek = "int"
-         THEN LET r == MapVals(y.n, x.es) IN IF r = Unm THEN Unm ELSE VIt(FnRet(y.n), r)
+         THEN (IF MapOk(y.n, x.es) THEN VIt(FnRet(y.n), MapVals(y.n, x.es)) ELSE Unm)
          ELSE TErr
     [] op \in {"?", "\\"} ->
          IF x.k = "iter" /\ y.k = "fn" /\ FnArity(y.n) = 1 /\ x.ek = "int" /\ FnRet(y.n) = "bool"
-         THEN LET r == MapVals(y.n, x.es) IN
-              IF r = Unm THEN Unm
+         THEN IF ~MapOk(y.n, x.es) THEN Unm
               ELSE LET yes == SelectSeq(x.es, LAMBDA e : Call1(y.n, e.v).v)
                        no == SelectSeq(x.es, LAMBDA e : ~Call1(y.n, e.v).v)
                    IN IF op = "?" THEN VIt("int", yes) ELSE VT(<<VA("int", yes), VA("int", no)>>)
@@ -526,7 +526,7 @@ ApPost(op, x, env) ==
     [] op = "~" -> IF x.k = "arr" THEN VIt(x.ek, x.es) ELSE TErr
     [] op = "$]" -> IF x.k = "iter" THEN VA(x.ek, x.es) ELSE TErr
     [] op = "$+" -> IF x.k = "iter" /\ x.ek = "int" THEN Chk(SumInts(x.es)) ELSE TErr
-    [] op = "$*" -> IF x.k = "iter" /\ x.ek = "int" THEN Chk(ProdInts(x.es)) ELSE TErr
+    [] op = "$*" -> IF x.k = "iter" /\ x.ek = "int" THEN ProdInts(x.es) ELSE TErr
     [] op = "$&&" -> IF x.k = "iter" /\ x.ek = "bool" THEN VB(\A j \in 1..Len(x.es) : x.es[j].v) ELSE TErr
     [] op = "$||" -> IF x.k = "iter" /\ x.ek = "bool" THEN VB(\E j \in 1..Len(x.es) : x.es[j].v) ELSE TErr
     [] op = "$&" -> IF x.k = "iter" /\ x.ek = "int"
